@@ -629,7 +629,7 @@ func main() {
 		fmt.Sscanf(*dbgRange, "%d:%d:%d", &lo, &hi, &st)
 		b := doBuild(cfg, *prop)
 		defer b.cleanup()
-		res, err := b.runWorker(Spec{Property: *prop, Seed: seed, Tier: *tier, Lo: lo, Hi: hi, Stride: st, KeepTape: false}, 0, 60*time.Minute)
+		res, err := b.runWorker(Spec{Property: *prop, Seed: seed, Tier: *tier, Lo: lo, Hi: hi, Stride: st, KeepTape: os.Getenv("VERIF_DBG_TRACE") != "", Verbose: os.Getenv("VERIF_DBG_TRACE") != ""}, 0, 60*time.Minute)
 		if err != nil {
 			fmt.Println("worker error:", err)
 		}
@@ -639,6 +639,9 @@ func main() {
 			}
 			if r.Harness != "" {
 				fmt.Printf("run %d HARNESS %s\n", r.Idx, r.Harness)
+			}
+			if r.Idx == hi-1 {
+				fmt.Printf("run %d hash=%x (after the warm-up range)\n%s", r.Idx, r.Hash, r.Trace)
 			}
 		}
 		fmt.Printf("%d runs\n", len(res))
